@@ -8,6 +8,7 @@ import (
 	"fmt"
 	"io"
 	"os"
+	"runtime/debug"
 	"strconv"
 	"time"
 
@@ -23,6 +24,19 @@ import (
 	"github.com/cbeuw/Cloak/internal/vx"
 	log "github.com/sirupsen/logrus"
 )
+
+// runCatching turns a panic that escapes a free-running (enumeration) scenario into a "no-panic"
+// violation: Cloak code called directly from the harness crashed on the case being evaluated.
+func runCatching(sc *vx.Scenario, c *vx.Ctx) (rep *vx.Report) {
+	defer func() {
+		if r := recover(); r != nil {
+			rep = &vx.Report{Job: c.Job, Engine: "enum", States: 1, Transitions: 1, Executions: 1, Outcomes: map[string]int64{"PANIC": 1}, CapHit: "panic"}
+			rep.Violations = append(rep.Violations, vx.Violation{Clause: "no-panic", Sig: vx.Sig(c.Job, "no-panic"), Msg: fmt.Sprintf("panic: %v\n%s", r, debug.Stack())})
+			rep.Samples = append(rep.Samples, "panic")
+		}
+	}()
+	return sc.Run(c)
+}
 
 func main() {
 	crand.Reader = vrt.DetReader{} // un-instrumented libraries (uTLS) draw from the owned randomness too
@@ -67,7 +81,7 @@ func main() {
 			c.Deadline = time.Now().Add(time.Duration(j.BudgetS) * time.Second)
 		}
 		start := time.Now()
-		rep := sc.Run(c)
+		rep := runCatching(sc, c)
 		if rep.WallS == 0 {
 			rep.WallS = time.Since(start).Seconds()
 		}
@@ -97,7 +111,7 @@ func main() {
 			rf.Seed = seed
 		}
 		c := &vx.Ctx{Job: rf.Job, Seed: rf.Seed, Replay: &rf.Violation}
-		rep := sc.Run(c)
+		rep := runCatching(sc, c)
 		if len(rep.Violations) > 0 {
 			v := rep.Violations[0]
 			fmt.Printf("replay reproduces: clause=%s sig=%s\n%s\n", v.Clause, v.Sig, v.Msg)
